@@ -17,7 +17,8 @@ def _variant_name(variants, val):
 
 def lit_to_facts(lit):
     """Convert a Sym edge literal into a list of facts (conjunction)."""
-    kind, term, val = lit
+    kind, term, val = lit[0], lit[1], lit[2]
+    ty = lit[3] if len(lit) > 3 else ""
     if term[0] == "discr":
         variants = term[2]
         x = term[1]
@@ -41,9 +42,30 @@ def lit_to_facts(lit):
         return bool_facts(term, True)
     if kind == "is" and val == "1" and _is_boolish(term):
         return bool_facts(term, True)
+    def const(v):
+        try:
+            n = int(v)
+        except ValueError:
+            return None
+        if ty == "char":
+            return ("char", n)
+        if ty in ("u8", "u16", "u32", "u64", "usize", "i8", "i16", "i32", "i64", "isize", "u128", "i128"):
+            return ("int", n)
+        return None
     if kind == "is":
+        c = const(val)
+        if c is not None:
+            return [cmp_fact("Eq", term, c)]
         return [(("inteq", term, val), True)]
-    return [(("inteq", term, v), False) for v in val]
+    out = []
+    for v in val:
+        c = const(v)
+        if c is not None:
+            a, p = cmp_fact("Eq", term, c)
+            out.append((a, False))
+        else:
+            out.append((("inteq", term, v), False))
+    return out
 
 
 def _is_boolish(t):
@@ -97,7 +119,7 @@ def facts_at(prog, body, block):
     s = sym_of(body)
     out = []
     for lit in s.guards(block):
-        lit2 = (lit[0], prog.simp(lit[1], body), lit[2])
+        lit2 = (lit[0], prog.simp(lit[1], body), lit[2]) + tuple(lit[3:])
         out.extend(lit_to_facts(lit2))
     return out
 
@@ -107,6 +129,6 @@ def path_facts(prog, body, path):
     s = sym_of(body)
     out = []
     for lit in s.path_literals(path):
-        lit2 = (lit[0], prog.simp(lit[1], body), lit[2])
+        lit2 = (lit[0], prog.simp(lit[1], body), lit[2]) + tuple(lit[3:])
         out.extend(lit_to_facts(lit2))
     return out
